@@ -18,7 +18,9 @@ or every bridge module builds).  Expected: rewrites accepted; for seeded patches
 "before" table does not already have (those are caught by correspondence / oracles, not by this tie).
 
 usage: tools/translator_regress.py --out tools/translator_regress_after.json [--only NAME[,NAME..]]
-                                   [--compare tools/translator_regress_before.json] [--keep]
+                                   [--compare tools/translator_regress_before.json] [--keep] [--no-build]
+                                   [--extra DIR]   (also DIR/<name>/patch.diff, tabulated as kind `mutation`:
+                                                    exit 1 if one of them is accepted)
 scratch: /tmp/deeptrans_repo (worktree of /repo), /tmp/deeptrans_lean (copy of lean/), /tmp/deeptrans_gen
 """
 import builtins
@@ -137,6 +139,13 @@ def patches():
             p = os.path.join(d, name, 'patch.diff')
             if os.path.isfile(p):
                 out.append((kind, name, p))
+    extra = arg('--extra')
+    if extra:
+        # hand-made semantic mutations (tools/translator_mutations.py): kind `mutation`, all must be rejected
+        for name in sorted(os.listdir(extra)):
+            p = os.path.join(extra, name, 'patch.diff')
+            if os.path.isfile(p):
+                out.append(('mutation', name, p))
     return out
 
 
@@ -246,6 +255,18 @@ def main():
             json.dump({'reads': {k: sorted(v) for k, v in reads.items()}, 'users': users, 'table': table}, f,
                       indent=1, sort_keys=True)
     rc = 0
+    try:
+        sys.path.insert(0, os.path.join(WT, 'tools'))
+        from translator_mutations import FOLLOWS_SOURCE
+    except Exception:
+        FOLLOWS_SOURCE = []
+    for key in sorted(table):
+        if table[key]['kind'] == 'mutation' and all(accepted(r) for r in table[key]['targets'].values()):
+            if key.split('/')[1] in FOLLOWS_SOURCE:
+                print('mutation accepted (a constant no theorem pins; the model follows the source): ' + key)
+            else:
+                print('MUTATION ACCEPTED: ' + key)
+                rc = 1
     cmp_ = arg('--compare')
     if cmp_:
         with open(cmp_) as f:
